@@ -68,7 +68,7 @@ CHECKS = {
         category="model_checking",
         text="Explicit-state BFS over the real ProgressBar under a virtual clock (exact binary ticks): operations start / start(max') / advance(1|3) / set_progress "
              "{0, mid, max, max+2, -1} / display / clear / finish / set_message, each preceded by a clock advance from 5 values; configurations max {0,1,3,10} "
-             "(thorough to 200) x bar widths x 6 formats x min interval {0, 0.1} x {ANSI, plain, section at 20 columns, quiet}, plus a pair of sections (the bar above a neighbour bar whose wrapped frame is redrawn as one more operation). Broad part: all ops x all clocks to "
+             "(thorough to 200) x bar widths x 6 formats x min interval {0, 0.1} x {ANSI, plain, section at 20 columns, quiet}, plus a pair of sections (the bar above a neighbour bar whose wrapped frame is redrawn as one more operation), a section of a plain output, and bars constructed from an IO whose two outputs differ in ANSI support (judged by the error output they draw on). Broad part: all ops x all clocks to "
              "depth 2 over 204 (thorough 890) configurations; reduced alphabets to depth 4-5 (thorough 6-7); complete ramps of set_progress for max up to 200. "
              "Every write is parsed against the format and interpreted on the terminal emulator: bar segment width, 0 <= step <= max, percent == 100*step//max, "
              "throttle respected below max, max/finish always draw, last frame final; ANSI screen == latest frame, plain: one frame per line and no control "
@@ -103,7 +103,8 @@ CHECKS = {
              "200, 1 rotated; thorough: every width from the minimum to the fit width). Oracle from the rendered text only: no exception; every line <= terminal; "
              "bordered styles: equal line widths, separators in identical columns; every style: cells' visible characters recovered per column top to bottom; "
              "rows deep-equal before/after; second render identical. Part P3: tables reached by set_row / add_row / set_rows / set_header_row AFTER a first rendering, "
-             "judged by the same clauses.",
+             "judged by the same clauses. Part P4 (E3 scheduler): two tables rendered by two threads, every interleaving at source-line granularity of "
+             "cell_wrapper.py with <= 1 preemption; each rendering equals the rendering of that table alone.",
         design_ref="2/C14",
         note="Trusted: the text-recovery oracle in props/c14.py. Minimum width = indentation + 4n+1 (bordered) / 2n-1 (borderless). One known finding "
              "(markup-shown:tagged-cell: tag cut by wrapping) is listed narrowly; other markup signatures still fail the check.",
@@ -132,7 +133,8 @@ CHECKS = {
              "ConsoleApplication; per tree every spelling of every command path (names/aliases, one unknown word) up to length 4 x {nothing, declared option, "
              "unknown option, option + word} x {no tail, '--', '--' + word}. Oracle: a 25-line reference resolver written from the statement (longest named "
              "prefix, first parsable default else first, application default, undefined first token -> CannotResolveCommandException and no handler run), "
-             "compared on selected command, parsed args or exception; metamorphic relations alias-for-name, appended option, appended '--' tail.",
+             "compared on selected command, parsed args or exception; metamorphic relations alias-for-name, appended option, appended '--' tail. Plus: one "
+             "CommandConfig object attached as sub-command to 2-3 parents (selection and arguments known by construction).",
         design_ref="2/C03",
         note="Trusted: the reference resolver and capacity-based parsability in props/c03.py. Unasserted where the statement is silent: lines no candidate can "
              "parse, options the selected command does not declare, '<path> --opt <word>' where the word spells the implicit default.",
@@ -146,7 +148,8 @@ CHECKS = {
              "3 (thorough 4) of the 9 short spellings; ArgvArgs and StringArgs; pipe-like and terminal-like streams. Reference computed from the set of switches "
              "before '--': quiet => both streams empty (also for error reports/help/version); verbosity seen by the handler and marker lines; --no-ansi => no ESC; "
              "--ansi => markers SGR-wrapped; -n => question returns default, nothing read; help/version pages with status 0 and no handler; tokens behind '--' "
-             "have no effect and arrive as argument values.",
+             "have no effect and arrive as argument values. Plus a handler that redraws a section of each output (asks the outputs about ANSI support) x ANSI "
+             "switch placements x pipe-like / terminal-like streams: no escape sequence at all under the no-ANSI switch.",
         design_ref="2/C09",
         note="Trusted: the reference in props/c09.py. Switches before/inside the command path are judged for quiet and --no-ansi only; '-v' directly before a "
              "positional is skipped (counted); --ansi together with --no-ansi: ESC presence not asserted.",
@@ -217,7 +220,7 @@ CHECKS = {
              "pointing into non-Python files; working directory / HOME with regex-special names or removed; BOM, latin-1, CRLF, continuation-line shapes; the "
              "Highlighter alone over 126 clikit files + 300 stdlib modules. Oracle: render never raises; class name and message "
              "(markup aside) present; snippet numbers consecutive, exactly one marker on the failing line, single-line-token lines verbatim; ignored frames absent "
-             "unless debug.",
+             "unless debug (also for a pattern naming the pseudo file of exec'd code). Source files removed, rewritten or cut down between two renders.",
         design_ref="2/C20",
         note="Trusted: the two 'markup aside' normal forms in props/_trace.py (deliberately lenient), Python's tokenizer for the verbatim rule. Three known findings "
              "(continuation backslash dropped; non-UTF-8 source via crashtest) are listed in known_findings.json.",
@@ -232,7 +235,8 @@ CHECKS = {
              "emulator and the screen must equal sentinel + the sections' logical lines in creation order wrapped at 8 (reference: list of lists). "
              "The same histories on undecorated outputs (Plain/Null formatter, also a PlainFormatter on an ANSI-capable stream): text + one newline per "
              "line, nothing for clear, no control byte. Further operations/configurations: an output that is indented when its sections are created, a "
-             "line hidden by its verbosity flag, a second Output with sections of its own in the same process.",
+             "line hidden by its verbosity flag, a second Output with sections of its own in the same process, lines tagged with a style that was added to "
+             "the formatter after its construction.",
         design_ref="2/C15",
         note="Trusted: mc/term.py (xterm deferred wrap, unbounded height), the list-of-lists reference, props/_c15_bfs.py (level-synchronous BFS with one "
              "global fingerprint set; states rebuilt by replay), fingerprint = canon over the whole Output + model + cursor. clear(n>lines), clear(0), "
@@ -248,7 +252,7 @@ CHECKS = {
              "(members only, index/value interchangeable, one error line per rejected entry, failure after exactly N attempts), termination decided by a read "
              "budget on the input stream (never wall-clock); confirmation patterns x answers x defaults; every question kind non-interactive: default, zero reads, "
              "nothing written; a re-asked question object equals a fresh one; an I/O re-fed after end of input equals a fresh I/O; sections taken "
-             "before/after interaction is switched off.",
+             "before/after interaction is switched off; two I/O objects in a row over one seekable input stream equal one I/O object serving both dialogues.",
         design_ref="2/C18",
         note="Trusted: the reference validator in props/c18.py; `subprocess` inside question.py is stubbed from outside so no stty is reachable (self-probed). "
              "Corners the statement leaves open (ambiguous values, case, blank list parts, result order, exception class) are accepted either way.",
@@ -257,8 +261,8 @@ CHECKS = {
     "C19": dict(
         engine="E3-scheduler",
         category="model_checking",
-        text="Stateless model checking of the real ProgressIndicator under a deterministic scheduler: for 10 (thorough 13) caller bodies "
-             "(set_message while spinning, sleeps, Exception / KeyboardInterrupt / SystemExit, work on the other stream) x ANSI/plain x intervals, "
+        text="Stateless model checking of the real ProgressIndicator under a deterministic scheduler: for 12 (thorough 15) caller bodies "
+             "(set_message while spinning - also to the end message itself -, sleeps, Exception / KeyboardInterrupt / SystemExit, work on the other stream) x ANSI/plain x intervals (+ a quiet output), "
              "every schedule of main x spinner thread with at most 3 (thorough 4) preemptions at the granularity of stream writes, sleeps, "
              "Event.set/is_set, Thread.start/join, Lock acquire/release, and with at most 2 preemptions at the granularity of every source line of "
              "progress_indicator.py, under a virtual clock in which timers may fire late (a join with a time-out is a timer too: the joiner may go on while its target lives). After every write the emitted bytes are interpreted on a "
@@ -280,7 +284,8 @@ CHECKS = {
              "enumerated completely in both tiers; a write method added later is picked up by reflection. Also: the two outputs of an IO given "
              "different settings, empty text on line methods, and an explicit-state BFS over histories of set_quiet / set_verbosity / write on one output "
              "and on two sections of one decorated output (depth 5, thorough 7/6; unique text per write: gated-out text must never reach the stream, "
-             "also not when another section redraws).",
+             "also not when another section redraws); further history operations: formatter / stream replaced on the live output (settings must survive), "
+             "quiet / verbosity set on the PARENT of the sections (whatever the section then reports gates its writes).",
         design_ref="2/C10",
         note="Trusted: the 8-line gate reference (lowest_level) and 'reaches the stream' = buffered stream contents changed. Sections get their "
              "verbosity/quiet set on themselves (inheritance from the parent output is not demanded).",
